@@ -79,6 +79,14 @@ pub fn check_pair(cx: &mut Cx, a: u64, b: u64) {
         }
         let coll: BitBoard = sq.into_iter().collect();
         chk("from_iter", coll.0, a);
+        // a long input: many repetitions first, new squares only after more than 64 items
+        if let Some(&first) = members.first() {
+            let long: Vec<Square> = std::iter::repeat(Square::ALL[first]).take(70).chain(members.iter().rev().map(|&i| Square::ALL[i])).collect();
+            let coll2: BitBoard = long.into_iter().collect();
+            chk("from_iter-long-input", coll2.0, a);
+        }
+        let none: BitBoard = Vec::<Square>::new().into_iter().collect();
+        chk("from_iter-empty-input", none.0, 0);
         // flips: involutions that move each member to its mirrored square
         let fr_ = ba.flip_ranks();
         let ff_ = ba.flip_files();
